@@ -80,7 +80,7 @@ import fam_iter
 def c08(run, ctx):
     fam_vm.pos_uses(run, ctx)
     fam_vm.end_arm(run, ctx)
-    fam_iter.iterator_impls(run, ctx)
+    fam_iter.iterator_impls(run, ctx, only=("Matches", "CaptureMatches"))
     fam_iter.own_matches(run, ctx)
     fam_iter.iter_state_machine(run, ctx, "<Matches as Iterator>::next", "find_iter")
     fam_iter.next_utf8_rule(run, ctx)
@@ -94,7 +94,6 @@ PROPS["C08"] = {"fn": c08, "level": "other",
 
 
 def c09(run, ctx):
-    fam_vm.pos_uses(run, ctx)
     fam_iter.entry_no_bypass(run, ctx)
     fam_iter.own_matches(run, ctx)
     fam_iter.dispatch_rule(run, ctx)
@@ -105,7 +104,7 @@ def c09(run, ctx):
 def c10(run, ctx):
     fam_iter.iter_state_machine(run, ctx, "<Matches as Iterator>::next", "find_iter")
     fam_vm.end_arm(run, ctx)
-    fam_iter.iterator_impls(run, ctx)
+    fam_iter.iterator_impls(run, ctx, only=("Matches", "Split", "SplitN"))
     fam_iter.split_rule(run, ctx)
     fam_iter.own_matches(run, ctx)
     fam_iter.own_split(run, ctx)
@@ -159,6 +158,8 @@ import fam_flow
 
 
 def c14(run, ctx):
+    import fam_vm as _vm
+    _vm.limit_rule(run, ctx)
     fam_taint.inner_limits(run, ctx)
     fam_flow.options_provenance(run, ctx)
     fam_flow.option_consumers(run, ctx)
@@ -307,7 +308,8 @@ def c13(run, ctx):
 
 
 def c16(run, ctx):
-    fam_iter.iterator_impls(run, ctx)
+    fam_enc.printable_rule(run, ctx)
+    fam_iter.iterator_impls(run, ctx, only=("SubCaptureMatches", "CaptureNames"))
     fam_expand.id_char_rule(run, ctx)
     fam_parse.group_counting(run, ctx)
     fam_parse.names_api(run, ctx)
@@ -317,6 +319,7 @@ def c16(run, ctx):
 
 
 def c17(run, ctx):
+    fam_enc.byte_class_tables(run, ctx)
     fam_enc.escape_rule(run, ctx)
     fam_enc.printable_rule(run, ctx)
     fam_enc.slot_rule(run, ctx)
@@ -372,6 +375,7 @@ def c15(run, ctx):
     fam_xfer.backref_validity(run, ctx)
     fam_tmpl.ctx_rule(run, ctx)
     fam_parse.conditional_rule(run, ctx)
+    fam_parse.backref_registration(run, ctx)
     fam_enc.any_arms_rule(run, ctx)
     fam_xfer.analyzer_rule(run, ctx)
 
